@@ -266,8 +266,9 @@ pub fn replay(prop: &str, j: &J) -> Result<Option<J>, String> {
     if g.order() == 0 || !g.contiguous() {
         return Err("vertex set must be 0..order with order >= 1".into());
     }
-    if g.order() > 9 {
-        return Err("the brute-force oracle enumerates simple paths: order <= 9".into());
+    // the search itself goes up to order 10 (structured inputs)
+    if g.order() > 10 {
+        return Err("the brute-force oracle enumerates simple paths: order <= 10".into());
     }
     if largest_path_sum(&g) > isize::MAX as i128 {
         return Err("path sums must fit in isize".into());
